@@ -704,6 +704,7 @@ package xmpp
 //@   requires connectOK(c)
 //@   ensures [C03.connect.ok]   err == nil ==> c.CurrentState.state == StateSessionEstablished && c.Session != nil && c.Session.err == nil && count(AuthConfirmed) == old(count(AuthConfirmed)) + 1 && (c.config.Insecure || last(SecureAsked, 1)) && (old(c.Handler) != nil ==> count(EventHandler) == old(count(EventHandler)) + 1 && last(EventHandler).State.state == StateSessionEstablished)
 //@   ensures [C03.connect.fail] err != nil ==> c.CurrentState.state == old(c.CurrentState.state) && count(EventHandler) == old(count(EventHandler))
+//@   ensures old(c.Handler) == nil ==> count(EventHandler) == old(count(EventHandler))
 //@   ensures c.transport == old(c.transport) && c.config == old(c.config) && c.Handler == old(c.Handler) && c.router == old(c.router) && c.ErrorHandler == old(c.ErrorHandler) && connectOK(c)
 //@   assigns c.Session, c.Session.err, c.Session.Features, c.Session.TlsEnabled, c.Session.StreamId, c.Session.SMState, c.Session.BindJid, c.Session.lastPacketId, c.config.StreamManagementEnable, c.CurrentState.state
 //@   emits Write, Decoded, DecodedElement, StartTLSCalled, SecureAsked, PacketRead, StanzaRead, AckReqRead, StreamErrRead, TokenRead, Marshaled, StreamStarted, TlsDone, AuthConfirmed, Restarted, ResumedOK, Bound, SessionOpened, SMEnabledOK, Connected, EventHandler, Spawn, Spawn_connect$1
@@ -714,6 +715,7 @@ package xmpp
 //@   ensures [C13.Connect.loops] err == nil ==> count(Spawn_recv) == old(count(Spawn_recv)) + 1 && last(Spawn_recv, 0) == c && count(Spawn_keepalive) == old(count(Spawn_keepalive)) + 1 && last(Spawn_keepalive, 0) == c.transport && last(Spawn_keepalive, 1) == c.config.KeepaliveInterval && last(Spawn_keepalive, 2) == last(Spawn_recv, 1)
 //@   ensures [C18.Connect.keepalive] err == nil ==> last(Spawn_keepalive, 0) == c.transport && last(Spawn_keepalive, 1) == c.config.KeepaliveInterval && last(Spawn_keepalive, 2) == last(Spawn_recv, 1) && fresh(last(Spawn_recv, 1))
 //@   ensures [C13.Connect.hook]  (err == nil && old(c.PostConnectHook) != nil) ==> count(PostConnectHook) == old(count(PostConnectHook)) + 1
+//@   ensures [C13.Connect.noloss] forall(j, old(count(EventHandler)), count(EventHandler), arg(EventHandler, j, 0).State.state != StateDisconnected && arg(EventHandler, j, 0).State.state != StateStreamError)
 //@   assigns c.Session, c.Session.err, c.Session.Features, c.Session.TlsEnabled, c.Session.StreamId, c.Session.SMState, c.Session.BindJid, c.Session.lastPacketId, c.config.StreamManagementEnable, c.CurrentState.state
 //@   emits Write, Decoded, DecodedElement, StartTLSCalled, SecureAsked, PacketRead, StanzaRead, AckReqRead, StreamErrRead, TokenRead, Marshaled, StreamStarted, TlsDone, AuthConfirmed, Restarted, ResumedOK, Bound, SessionOpened, SMEnabledOK, Connected, EventHandler, Spawn, Spawn_connect$1, Spawn_recv, Spawn_keepalive, PostConnectHook
 //@   at call Write assert [C04.presence] c.CurrentState.state == StateSessionEstablished && count(AuthConfirmed) == old(count(AuthConfirmed)) + 1 && (c.config.Insecure || last(SecureAsked, 1))
@@ -724,6 +726,7 @@ package xmpp
 //@   ensures [C18.Resume.keepalive] err == nil ==> last(Spawn_keepalive, 0) == c.transport && last(Spawn_keepalive, 1) == c.config.KeepaliveInterval && last(Spawn_keepalive, 2) == last(Spawn_recv, 1) && fresh(last(Spawn_recv, 1))
 //@   ensures [C13.Resume.hook]  (err == nil && old(c.PostResumeHook) != nil) ==> count(PostResumeHook) == old(count(PostResumeHook)) + 1
 //@   ensures [C13.Resume.fail]  c.CurrentState.state != StateSessionEstablished ==> err != nil
+//@   ensures [C13.Resume.noloss] forall(j, old(count(EventHandler)), count(EventHandler), arg(EventHandler, j, 0).State.state != StateDisconnected && arg(EventHandler, j, 0).State.state != StateStreamError)
 //@   assigns c.Session, c.Session.err, c.Session.Features, c.Session.TlsEnabled, c.Session.StreamId, c.Session.SMState, c.Session.BindJid, c.Session.lastPacketId, c.config.StreamManagementEnable, c.CurrentState.state
 //@   emits Write, Decoded, DecodedElement, StartTLSCalled, SecureAsked, PacketRead, StanzaRead, AckReqRead, StreamErrRead, TokenRead, Marshaled, StreamStarted, TlsDone, AuthConfirmed, Restarted, ResumedOK, Bound, SessionOpened, SMEnabledOK, Connected, EventHandler, Spawn, Spawn_connect$1, Spawn_recv, Spawn_keepalive, PostResumeHook
 
